@@ -16,6 +16,7 @@ def run(ctx):
     prog = ctx.prog('default')
     ctx.rules.append('R2 guarded-cell results on operand-pair cells (NaR / zero / sign / literal cut points)')
     tot = 0
+    pjobs = []
     for pty in PTYS:
         for name, f in OPS.items():
             path = anchor(ctx, prog, pty, name)
@@ -39,7 +40,8 @@ def run(ctx):
             pts = probes.op_probes(pty, name, 1 if ctx.tier == 'quick' else 2)
             if name == 'mul':
                 pts = pts + probes.mul_sparse_probes(pty, 6 if ctx.tier == 'quick' else 24)     # dense x dense products in extreme rounding situations
-            run_points(ctx, prog, 'GCR', '%s::%s' % (pty.name, name), path, pty, pts, posit_binary_spec(pty, f))
+            pjobs.append(dict(rule='GCR', label='%s::%s' % (pty.name, name), path=path, pty=pty, points=pts, spec=posit_binary_spec(pty, f)))
+    run_points_parallel(ctx, prog, pjobs)
     # R10 with one symbolic operand: a (+/-) b for a constant a = 2^s * 1.0 or 2^s * 1.1..1 and *every* b of a regime cell placed so that the
     # exact result is a routing of b's bits (no literal meets a one or a carry); then the rounding cases of the result.  Proves alignment,
     # sticky collection, rounding, carry-out and saturation of add_mags / sub_mags on those families, both operand orders, both signs.
